@@ -351,11 +351,39 @@ func (e *Engine) inline(st *state, fr *frame, in ssa.CallInstruction, fn *ssa.Fu
 	startID := e.nextID
 	outs := e.execFrom(sub, nf, fn.Blocks[0], nil, 0)
 	if len(nf.tsub) > 0 {
-		// values handed back to a generic caller are typed in the caller's terms
+		// values handed back to a generic caller – and the conditions and effects recorded inside the callee – are
+		// typed in the caller's terms
+		done := map[*Event]bool{}
+		var substEvents func(evs []*Event)
+		substEvents = func(evs []*Event) {
+			for _, ev := range evs {
+				if done[ev] {
+					continue
+				}
+				done[ev] = true
+				ev.Src, ev.Dst, ev.Size, ev.Count, ev.Recv, ev.Buf = substVal(ev.Src, nf), substVal(ev.Dst, nf), substVal(ev.Size, nf), substVal(ev.Count, nf), substVal(ev.Recv, nf), substVal(ev.Buf, nf)
+				for i, a := range ev.Args {
+					ev.Args[i] = substVal(a, nf)
+				}
+				for _, arm := range ev.Iter {
+					for i := range arm.Conds {
+						arm.Conds[i].V = substVal(arm.Conds[i].V, nf)
+					}
+					for k, v := range arm.Next {
+						arm.Next[k] = substVal(v, nf)
+					}
+					substEvents(arm.Events)
+				}
+			}
+		}
 		for _, o := range outs {
 			for i, r := range o.ret {
 				o.ret[i] = substVal(r, nf)
 			}
+			for i := base; i < len(o.st.conds); i++ {
+				o.st.conds[i].V = substVal(o.st.conds[i].V, nf)
+			}
+			substEvents(o.st.events)
 		}
 	}
 
@@ -407,6 +435,15 @@ func (e *Engine) inline(st *state, fr *frame, in ssa.CallInstruction, fn *ssa.Fu
 				ns.facts[k] = v
 			}
 		} else {
+			for _, o := range g.outs[1:] {
+				for k, c := range o.st.content {
+					if sc := stripCT(c); sc != nil && sc.Op == "bulkints" {
+						if _, has := ns.content[k]; !has {
+							ns.content[k] = c
+						}
+					}
+				}
+			}
 			alt := &Event{ID: e.id(), Kind: EvAlt, Pos: in.Pos(), Fn: fr.fn, Site: fr.site, Instr: in, NCond: len(ns.conds), Callee: fn}
 			anyEv := false
 			for _, o := range g.outs {
@@ -475,6 +512,11 @@ func outcomeSig(pre *state, o *outcome, startID int) string {
 		// the buffer's spare capacity handed out by AvailableBuffer is scratch space, valid only until the next
 		// operation on the buffer: what a callee left there is not an observable result
 		if strings.Contains(k, "availbuf") {
+			continue
+		}
+		// a slice filled in bulk from bytes just read: a fact about the value the callee returns, which the empty-list
+		// shortcut of the same callee (nothing to fill) does not contradict
+		if sc := stripCT(c); sc != nil && sc.Op == "bulkints" {
 			continue
 		}
 		diffs = append(diffs, "c:"+k+"="+c.Key())
@@ -634,6 +676,24 @@ func (e *Engine) model(st *state, fr *frame, in ssa.CallInstruction, fn *ssa.Fun
 			} else {
 				it, src = data.Type, data
 			}
+			if sl, isSlice := it.Underlying().(*types.Slice); isSlice {
+				// bulk: every element in index order, each in the given byte order
+				if esz, okE := fixedSize(sl.Elem()); okE {
+					first := stripCT(e.contentOf(st, args[0]))
+					if first.IsNilConst() || first.Op == "availbuf" || (first.Op == "makeslice" && isZero(first.Args[0])) {
+						eo := ord
+						if esz == 1 {
+							eo = ""
+						}
+						content := e.contentOf(st, src)
+						lid := e.id()
+						lv := &Val{Op: "loopvar", ID: lid, Name: "bulk", Type: types.Typ[types.Int], Args: []*Val{mkInt(0)}, Aux: int64(1)}
+						elem := &Val{Op: "elem", Args: []*Val{content, lv}, Type: sl.Elem()}
+						ib := &Val{Op: "intbytes", Name: eo, Args: []*Val{elem}, Type: sl.Elem()}
+						return one(st, tuple(&Val{Op: "stagedrep", ID: lid, Args: []*Val{first, ib, mkLen(content)}, Type: args[0].Type}, mkNil(errT))), true
+					}
+				}
+			}
 			if sz, ok := fixedSize(it); ok {
 				if sz == 1 {
 					ord = ""
@@ -648,6 +708,37 @@ func (e *Engine) model(st *state, fr *frame, in ssa.CallInstruction, fn *ssa.Fun
 		// binary.Decode(b, order, &v): v := the number in the first Size(v) bytes of b; an error when b is shorter
 		if len(args) == 3 {
 			ord, data := orderOf(args[1]), stripIface(args[2])
+			if sl, isSlice := data.Type.Underlying().(*types.Slice); isSlice {
+				// bulk: the slice is filled with the numbers the bytes hold, when there are exactly len(slice) of them
+				if esz, okE := fixedSize(sl.Elem()); okE {
+					content := stripCT(e.contentOf(st, args[0]))
+					n := mkLen(data)
+					if data.Op == "makeslice" {
+						n = data.Args[0]
+					}
+					exact := false
+					if content.Op == "wire" {
+						need := mkLen(content)
+						if esz > 0 && affOf(need).Equal(affOf(n).Scale(esz)) && !affOf(need).Top {
+							exact = true
+						} else if m := stripCT(need); m.Op == "binop" && m.Name == "*" && len(m.Args) == 2 {
+							for side := 0; side < 2; side++ {
+								if sz := stripCT(m.Args[1-side]); sz.Op == "call" && sz.Name == "encoding/binary.Size" && affEq(m.Args[side], n) {
+									exact = true
+								}
+							}
+						}
+					}
+					if exact {
+						eo := ord
+						if esz == 1 {
+							eo = ""
+						}
+						e.setContent(st, data, &Val{Op: "bulkints", Name: eo, Args: []*Val{content, n}, Type: data.Type})
+						return one(st, tuple(mkLen(content), mkNil(errT))), true
+					}
+				}
+			}
 			if p, ok := data.Type.Underlying().(*types.Pointer); ok {
 				if sz, ok := fixedSize(p.Elem()); ok {
 					if sz == 1 {
@@ -1000,9 +1091,29 @@ func (e *Engine) model(st *state, fr *frame, in ssa.CallInstruction, fn *ssa.Fun
 		return one(st, e.opaqueResult(fn, name, cargs, 0)), true
 	}
 	// pure library functions
-	if pkg := fn.Pkg; pkg != nil && purePkgs[pkg.Pkg.Path()] && !e.P.InModule(fn) {
+	if pkg := ssaPkgOf(fn); pkg != nil && purePkgs[pkg.Pkg.Path()] && !e.P.InModule(fn) { // (instances of generic library functions belong to their origin's package)
 		var cargs []*Val
+		// functions of bytes and slices may hand back (part of) the very slice they were given – Trim*, Clip, Compact,
+		// Delete, Fields … do not copy: when the result can hold a slice, a slice argument that views the buffer's storage
+		// is kept as that view (so the alias is still seen); its content is what contentOf makes of it later
+		mayAlias := false
+		if pp := pkg.Pkg.Path(); pp == "bytes" || pp == "slices" {
+			res := fn.Signature.Results()
+			for i := 0; i < res.Len(); i++ {
+				switch res.At(i).Type().Underlying().(type) {
+				case *types.Slice, *types.Interface, *types.TypeParam:
+					mayAlias = true
+				}
+				if _, isTP := res.At(i).Type().(*types.TypeParam); isTP {
+					mayAlias = true
+				}
+			}
+		}
 		for _, a := range args {
+			if mayAlias && a != nil && a.Contains(func(x *Val) bool { return x.Op == "bufbytes" || x.Op == "bufnext" || x.Op == "availbuf" }) {
+				cargs = append(cargs, a)
+				continue
+			}
 			cargs = append(cargs, e.contentOf(st, a))
 		}
 		// library functions that permute or overwrite a slice argument in place
@@ -1402,8 +1513,30 @@ func stagedInts(src *Val) []*Val {
 			return nil
 		}
 		if src.Name == "append" && len(src.Args) == 2 {
-			// append(staged, byte) is not tracked
-			return nil
+			// append(staged-or-empty, b1, b2 …) with single-byte values: one 1-byte number each
+			first := stripCT(src.Args[0])
+			var pre []*Val
+			if first.IsNilConst() || first.Op == "availbuf" || (first.Op == "makeslice" && isZero(first.Args[0])) || (first.Op == "slice" && first.Args[2] != nil && isZero(first.Args[2])) {
+				pre = []*Val{}
+			} else if p := stagedInts(first); p != nil {
+				pre = p
+			} else {
+				return nil
+			}
+			lit := stripCT(src.Args[1])
+			if lit.Op != "arraylit" || len(lit.Args) == 0 {
+				return nil
+			}
+			for _, el := range lit.Args {
+				if el.Type == nil {
+					return nil
+				}
+				if sz, ok := fixedSize(el.Type); !ok || sz != 1 {
+					return nil
+				}
+				pre = append(pre, &Val{Op: "intbytes", Name: "", Args: []*Val{el}, Type: el.Type})
+			}
+			return pre
 		}
 	}
 	return nil
